@@ -38,7 +38,7 @@ mod e2e {
 		routes: Vec<(Vec<usize>, Vec<usize>, u64)>,
 		sent_ev: u32, failed_ev: u32, recipient_claimed: bool, recipient_action: u8, decided: bool }
 
-	struct Ctx<'a> { net: Net, rec: &'a mut Rec, rng: &'a mut Rng, buf: Vec<String>, htlcs: BTreeMap<(usize, u64), (usize, u64, bool)>,
+	struct Ctx<'a> { net: Net, rec: &'a mut Rec, rng: &'a mut Rng, buf: Vec<(String, u32)>, group: u32, htlcs: BTreeMap<(usize, u64), (usize, u64, bool)>,
 		live: BTreeSet<(usize, u64)>, ev_seen: Vec<usize>, pays: Vec<Pay>, next_part: u64, log: Vec<String>, sender_balance: u64 }
 
 	fn hops(net: &Net, nodes: &[usize], chans: &[usize], amt: u64) -> (Path, u64) {
@@ -71,11 +71,12 @@ mod e2e {
 		fn observe(&mut self) {
 			let cur = self.sender_htlcs();
 			let gone: Vec<(usize, u64)> = self.live.iter().filter(|k| !cur.contains_key(k)).cloned().collect();
+			self.group += 1;
 			for k in gone {
 				self.live.remove(&k);
 				if let Some((p, part, fulfilled)) = self.htlcs.get(&k).cloned() {
 					let mid = self.pays[p].mid;
-					if fulfilled { self.buf.push(format!("finalize {} {}", mid, part)); } else { self.buf.push(format!("fail {} {} 0 ?{}", mid, part, part)); }
+					let g = self.group; if fulfilled { self.buf.push((format!("finalize {} {}", mid, part), g)); } else { self.buf.push((format!("fail {} {} 0 ?{}", mid, part, part), g)); }
 				}
 			}
 			for (k, hash) in cur.iter() {
@@ -132,7 +133,18 @@ mod e2e {
 					_ => {},
 				}
 			}
-			let mut ops: Vec<String> = self.buf.drain(..).collect();
+			// HTLCs seen leaving in one look (e.g. several RAAs released by one event drain) have no observable order:
+			// order such a group like the implementation's path events
+			let ev_parts: Vec<String> = texts.iter().filter(|t| t.1.starts_with("path")).map(|t| { let w: Vec<&str> = t.1.split(':').collect(); format!("{} {}", w[1], w[2]) }).collect();
+			let mut raw: Vec<(String, u32)> = self.buf.drain(..).collect();
+			// (finalize_claims / fail_htlc run when the RAA's monitor update completes, which an unhandled PaymentSent
+			// can hold back: removals observed at different moments may be processed together, in the map's order)
+			let key = |o: &String| -> usize { let w: Vec<&str> = o.split(' ').collect(); let k = format!("{} {}", w[1], w[2]); ev_parts.iter().position(|x| *x == k).unwrap_or(usize::MAX) };
+			let slots: Vec<usize> = (0..raw.len()).filter(|k| raw[*k].1 != 0).collect();
+			let mut moved: Vec<(String, u32)> = slots.iter().map(|k| raw[*k].clone()).collect();
+			moved.sort_by_key(|o| key(&o.0));
+			for (k, v) in slots.iter().zip(moved.into_iter()) { raw[*k] = v; }
+			let mut ops: Vec<String> = raw.into_iter().map(|x| x.0).collect();
 			for o in ops.iter_mut() { if let Some(i) = o.find('?') { let part: u64 = o[i + 1..].parse().unwrap(); let pm = perm.get(&part).cloned().unwrap_or(false); o.truncate(i); o.push_str(if pm { "1" } else { "0" }); } }
 			if let Some(x) = extra { ops.push(x.to_string()); }
 			ops.push("handle".to_string());
@@ -227,7 +239,7 @@ mod e2e {
 			if j == 0 {
 				if let Some(Wire::Fulfill(m)) = self.net.q.get(&(i, j)).and_then(|q| q.front()) {
 					let c = self.net.chan_idx(&m.channel_id);
-					if let Some(v) = self.htlcs.get_mut(&(c, m.htlc_id)) { v.2 = true; let (p, part, _) = *v; let mid = self.pays[p].mid; self.buf.push(format!("claim {} {} 0", mid, part)); }
+					if let Some(v) = self.htlcs.get_mut(&(c, m.htlc_id)) { v.2 = true; let (p, part, _) = *v; let mid = self.pays[p].mid; self.buf.push((format!("claim {} {} 0", mid, part), 0)); }
 				}
 			}
 			let k = self.net.deliver(i, j);
@@ -266,13 +278,13 @@ mod e2e {
 				} else if r < 86 {
 					self.net.forward(0); self.observe(); self.flush(None);
 				} else if r < 89 && !calm {
-					self.net.nodes[0].node.timer_tick_occurred(); self.net.pump(0); self.observe(); self.buf.push("tick".into());
+					self.net.nodes[0].node.timer_tick_occurred(); self.net.pump(0); self.observe(); self.buf.push(("tick".into(), 0));
 				} else if r < 92 && !calm {
 					self.dup_send(p);
 				} else if r < 94 && !calm && !abandoned {
 					abandoned = true;
 					self.net.nodes[0].node.abandon_payment(self.pays[p].id); self.net.pump(0); self.observe();
-					self.buf.push(format!("abandon {} UserAbandoned", mid));
+					self.buf.push((format!("abandon {} UserAbandoned", mid), 0));
 				} else if r < 97 && !calm {
 					match disconnected {
 						None => { let pr = if self.rng.chance(1, 2) { (0, 1) } else if self.rng.chance(1, 2) { (1, 2) } else { (0, 2) }; self.net.disconnect(pr.0, pr.1); disconnected = Some(pr); self.observe(); self.log.push(format!("disconnect {:?}", pr)); },
@@ -290,8 +302,9 @@ mod e2e {
 					if self.net.nodes[0].node.needs_pending_htlc_processing() { self.net.forward(0); self.observe(); }
 					self.flush(None);
 				}
+				for i in 1..3 { self.others_events(i); }
 				self.flush(None);
-				if self.pays[p].sent_ev + self.pays[p].failed_ev > 0 && self.sender_htlcs().is_empty() { break; }
+				if self.pays[p].sent_ev + self.pays[p].failed_ev > 0 && self.sender_htlcs().is_empty() && self.quiescent() { break; }
 				// undelivered / incomplete MPP: the recipient's timer fails the held parts back
 				if phase < 5 { for i in 1..3 { self.net.nodes[i].node.timer_tick_occurred(); self.net.pump(i); self.others_events(i); } }
 			}
@@ -319,7 +332,7 @@ mod e2e {
 		sim::silence_stdout();
 		let mut rec = Rec::new(&args.out, "c03e2e");
 		let mut rng = Rng::new(args.seed ^ 0xe2e0_3);
-		let n_nets = if args.thorough { 40 } else { 3 } * args.scale;
+		let n_nets = if args.thorough { 150 } else { 10 } * args.scale;
 		let per_net = if args.thorough { 80 } else { 40 };
 		for _ in 0..n_nets {
 			rec.directive("reset");
@@ -328,7 +341,7 @@ mod e2e {
 			net.open(0, 1, 2_000_000, 500_000_000);
 			net.open(1, 2, 2_000_000, 500_000_000);
 			net.open(0, 2, 2_000_000, 500_000_000);
-			let mut ctx = Ctx { net, rec: &mut rec, rng: &mut rng, buf: vec![], htlcs: BTreeMap::new(), live: BTreeSet::new(), ev_seen: vec![0; 3], pays: vec![], next_part: 1, log: vec![], sender_balance: 0 };
+			let mut ctx = Ctx { net, rec: &mut rec, rng: &mut rng, buf: vec![], group: 0, htlcs: BTreeMap::new(), live: BTreeSet::new(), ev_seen: vec![0; 3], pays: vec![], next_part: 1, log: vec![], sender_balance: 0 };
 			for k in 0..per_net {
 				let calm = ctx.rng.chance(1, 4);
 				ctx.run_payment(k as u64 + 1, calm);
@@ -465,7 +478,7 @@ impl<'a> Seq<'a> {
 		// (id, part, session priv); sometimes a part that never existed
 		if self.parts.is_empty() || self.rng.chance(1, 12) {
 			let id = self.rng.range(1, 4);
-			let p = 900 + self.rng.below(5);
+			let p = 1_000_000 + self.rng.below(5);
 			let mut sp = [0x55u8; 32]; sp[31] = p as u8;
 			return (id, p, sp);
 		}
@@ -575,7 +588,7 @@ impl<'a> Seq<'a> {
 			let mut plan = vec![];
 			let mut plan_parts = vec![];
 			for _ in 0..4 {
-				if self.rng.chance(2, 3) { let n = self.rng.range(1, 2); let ps = self.new_parts(0, n); plan.push(Some(ps.clone())); plan_parts.push(ps); } else { plan.push(None); plan_parts.push(vec![]); }
+				if self.rng.chance(2, 3) { let ps = self.new_parts(0, 4); plan.push(Some(ps.clone())); plan_parts.push(ps); } else { plan.push(None); plan_parts.push(vec![]); }
 			}
 			let f = &self.f;
 			let res = guarded(AssertUnwindSafe(|| f.check_retry(plan)));
@@ -585,7 +598,9 @@ impl<'a> Seq<'a> {
 					for (k, (id, found)) in calls.iter().enumerate() {
 						let i = pid_num(&hex(&id.0));
 						if *found {
-							items.push(format!("{}={}", i, Self::csv(&plan_parts[k])));
+							// the parts of plan entry k that the router really used (one per missing part)
+							let used: Vec<u64> = plan_parts[k].iter().cloned().filter(|sc| sent.iter().any(|(sid, _, scid)| scid == sc && sid == id)).collect();
+							items.push(format!("{}={}", i, Self::csv(&used)));
 							if let Some(m) = self.meta.get_mut(&i) { m.count += 1; }
 						} else { items.push(format!("{}=x", i)); }
 					}
